@@ -196,6 +196,9 @@ def spec_checks(q, gs, os_, sel_model, notes, out):
                 return "[[%s]]" % stem if n[0].endswith(".zo") and ".zo" not in stem else None
             if g in tagidx:
                 return " | ".join(g + t for t in sorted(n[tagidx[g]]))
+            if g == "section":
+                # the titles of the enclosing sections, outermost first; the untitled top section contributes nothing
+                return " | ".join(t for t in n[12] if t)
             return None
         byzid = {}
         for n in notes:
